@@ -1213,5 +1213,96 @@ class Iup(Unit):
         rec.evals(nev)
 
 
+# =========================================================================== model histories
+class ModelHistories(Unit):
+    """One VariationModel object used several times: sparse master lists (sub-models are cached by
+    their None-pattern) interleaved with reorderMasters (which changes what a position means)."""
+
+    name = "model-histories"
+    rule = ("one VariationModel object per history: master-location sets of 3..4 locations on {-1, -1/2, 1/2, 1} (1 axis) and 4 locations on {0, 1}^2 (2 axes) x histories "
+            "[sparse(P1)?, reorderMasters(m), sparse(P2)] for every None-pattern P1, P2 with one missing non-default master and EVERY permutation m of the masters (the default may move): "
+            "after each sparse call the returned (deltas, supports) interpolate every present master exactly (Fraction reference evaluating the tent products), and equal those of a fresh model built on the reordered locations; "
+            "states = (locations, permutation, patterns), transitions = calls on the model; distinct = each history")
+    chunk = 16
+    required_witnesses = ("reorder between two sparse calls with the same pattern", "default master moved by the reorder")
+
+    SETS = [
+        [{}, {"wght": 1.0}, {"wght": 0.5}],
+        [{}, {"wght": 1.0}, {"wght": -1.0}, {"wght": 0.5}],
+        [{}, {"wght": 0.5}, {"wght": 1.0}, {"wght": -0.5}],
+        [{}, {"wght": 1.0}, {"wdth": 1.0}, {"wght": 1.0, "wdth": 1.0}],
+        [{}, {"wght": 1.0}, {"wght": 0.5, "wdth": 1.0}, {"wght": 1.0, "wdth": 1.0}],
+    ]
+
+    def cases(self, tier, seed):
+        for si, locs in enumerate(self.SETS):
+            n = len(locs)
+            for m in itertools.permutations(range(n)):
+                for p1 in [None] + list(range(1, n)):
+                    for p2 in range(n):
+                        yield [si, list(m), p1, p2]
+
+    @staticmethod
+    def exact(rec, locs, present, values, deltas, supports, what):
+        """sum_i delta_i * scalar(support_i, loc_k) == value_k at every present master"""
+        for k, loc in enumerate(locs):
+            if not present[k]:
+                continue
+            tot = F(0)
+            for d, sup in zip(deltas, supports):
+                sc = F(1)
+                for ax, (lo, pk, hi) in sup.items():
+                    sc *= R.axis_scalar(F(loc.get(ax, 0)).limit_denominator(64), F(lo).limit_denominator(64), F(pk).limit_denominator(64), F(hi).limit_denominator(64))
+                tot += F(d).limit_denominator(1 << 20) * sc
+            if abs(tot - values[k]) > F(1, 10 ** 6):
+                rec.violation("model-history:master-not-recovered:" + what, "locations %s values %s: interpolating the returned deltas at master %d (%s) gives %s" % (locs, values, k, loc, float(tot)))
+                return False
+        return True
+
+    def check(self, case, rec):
+        si, m, p1, p2 = case
+        locs = [dict(l) for l in self.SETS[si]]
+        n = len(locs)
+        values = [F(100 + 37 * k * k + 11 * k) for k in range(n)]
+        model = VariationModel(locs)
+        rec.state([si, "new"])
+        if p1 is not None:
+            sparse = [None if k == p1 else float(values[k]) for k in range(n)]
+            deltas, supports = model.getDeltasAndSupports(sparse)
+            rec.transition()
+            self.exact(rec, locs, [k != p1 for k in range(n)], values, deltas, supports, "first-sparse")
+        new_values = model.reorderMasters([float(v) for v in values], m)
+        rec.transition()
+        new_locs = [locs[i] for i in m]
+        if [F(v) for v in new_values] != [values[i] for i in m]:
+            rec.violation("model-history:reorder-return", "reorderMasters(%s) returned %s" % (m, new_values))
+            return
+        nv = [values[i] for i in m]
+        # the default master cannot be the missing one
+        dflt = [k for k, l in enumerate(new_locs) if not any(l.values())][0]
+        if p2 == dflt:
+            return
+        if dflt != 0:
+            rec.witness("default master moved by the reorder")
+        if p1 is not None and p1 == p2 and m != list(range(n)):
+            rec.witness("reorder between two sparse calls with the same pattern")
+        sparse2 = [None if k == p2 else float(nv[k]) for k in range(n)]
+        deltas, supports = model.getDeltasAndSupports(sparse2)
+        rec.transition()
+        rec.state([si, m, p1, p2])
+        ok = self.exact(rec, new_locs, [k != p2 for k in range(n)], nv, deltas, supports, "sparse-after-reorder")
+        fresh = VariationModel(new_locs)
+        d2, s2 = fresh.getDeltasAndSupports(sparse2)
+        if ok and (list(deltas) != list(d2) or list(supports) != list(s2)):
+            rec.violation("model-history:differs-from-fresh-model", "history %s: deltas %s supports %s, a fresh model on the reordered locations gives %s %s" % (case, deltas, supports, d2, s2))
+        # full lists as well
+        full = model.getDeltas([float(v) for v in nv])
+        rec.transition()
+        if list(full) != list(fresh.getDeltas([float(v) for v in nv])):
+            rec.violation("model-history:full-differs-from-fresh-model", "history %s: full-master deltas differ from a fresh model" % (case,))
+        rec.nontrivial()
+        rec.trace()
+
+
 def units():
-    return [Models1(), Models2(), Models3(), Normalize(), Renormalize(), Solver(), StoreHistories(), MultiStoreHistories(), Iup()]
+    return [Models1(), Models2(), Models3(), Normalize(), Renormalize(), Solver(), StoreHistories(), MultiStoreHistories(), Iup(), ModelHistories()]
